@@ -127,10 +127,16 @@ def oracle(c, out, scales):
     unit, r = rgen.parse_q(be, out)
     if ua != ub:
         return (unit != "PANIC"), "different units %s/%s: %s returned %s" % (ua, ub, c["op"], out)
+    if c["op"] == "ratio" and b == 0 and be == "dec":
+        # the amount type's own division panics on a zero divisor; so must the quantity
+        return (unit != "PANIC"), "same unit, zero divisor: decimal division panics, the quantity division returned %s" % out
     if unit == "PANIC":
-        if c["op"] == "ratio" and b == 0 and be == "dec":
-            return None, "zero divisor"
         return True, "same unit but panicked: " + out
+    if be == "f64":
+        want = {"add": lambda: a + b, "sub": lambda: a - b, "ratio": lambda: (a / b) if b != 0 else (math.copysign(math.inf, a) * math.copysign(1.0, b) if a != 0 and not math.isnan(a) else math.nan)}[c["op"]]()
+        if math.isnan(want):
+            return (not math.isnan(r)), "same unit %s of %r and %r: %r, amount type gives NaN" % (c["op"], a, b, r)
+        return (rgen.f64_bits(r) != rgen.f64_bits(want)), "same unit %s of %r and %r: %r, amount type gives %r" % (c["op"], a, b, r, want)
     return False, out
 
 
@@ -219,13 +225,14 @@ def kani_part(report, tier, backend):
     sites = panic_sites()
     pre = G.PRELUDE + synthdefs.SYNTH_RS + ("use quantities::Decimal;\n" if backend == "dec" else "")
     temp = catalogue.by_name("Temperature")
-    pre += G.tables(temp, backend) + G.tables(synthdefs.TRI, backend) + G.tables(synthdefs.PILE, backend)
+    pre += G.tables(temp, backend) + G.tables(synthdefs.TRI, backend) + G.tables(synthdefs.PILE, backend) + G.tables(synthdefs.HEAT, backend)
     kc = KaniCrate("c10" + backend[0], backend, extra_src=pre)
     add_noref(kc, temp, backend, sites)
     add_noref(kc, synthdefs.TRI, backend, sites)
+    add_noref(kc, synthdefs.HEAT, backend, sites)        # two different units share a symbol
     add_single(kc, synthdefs.PILE, backend)
     report.bounds["kani_%s" % backend] = ("amounts: every f64 bit pattern" if backend == "f64" else "amounts: Decimal::new_raw(c, 3), |c| < 2^40") + \
-        "; units: all ordered pairs by symbolic indices; types: Temperature, synthetic no-reference Tri, synthetic single-unit Pile"
+        "; units: all ordered pairs by symbolic indices; types: Temperature, synthetic no-reference Tri and Heat (two units sharing a symbol), synthetic single-unit Pile"
     report.notes.append("documented panic sites read from /repo/src/lib.rs: %s" % sites)
     kc.run(report, timeout=600 if tier == "quick" else 3000)
     return kc
